@@ -564,6 +564,11 @@ func (se *SessionExecutor) handleSetAutoCommit(autocommit bool) (err error) {
 
 	// set autocommit = 1
 	if autocommit {
+		if se.isAutoCommit() {
+			// already on: MySQL changes nothing and does not end a transaction opened by BEGIN,
+			// so its connections must not go back to the pool with that transaction still open
+			return nil
+		}
 		se.status |= mysql.ServerStatusAutocommit
 		if se.status&mysql.ServerStatusInTrans > 0 {
 			se.status &= ^mysql.ServerStatusInTrans
